@@ -153,3 +153,10 @@ Print Assumptions C01_spec_stores_well_formed.
 Print Assumptions C01_mirror_keeps_times_set.
 Print Assumptions C01_spec_chain_mirrors.
 Print Assumptions C01_run_keeps_links_utf8.
+
+(* ---- F14: the name under which a file or symlink source is placed inside a trailing-slash destination (Model/RootName.v) *)
+From RJ Require Import Model.RootName Proofs.RootNameProofs.
+From Coq Require Import String.
+Theorem C01_file_lands_under_its_own_name : forall src dest, exists name, inside_root false src dest = dest ++ name /\ name = posix_basename src /\ Forall (fun c => c <> "/"%char) name.
+Proof. exact C01_inside_root_is_child. Qed.
+Print Assumptions C01_file_lands_under_its_own_name.
